@@ -130,13 +130,19 @@ func u7CacheEntries(p *Prog, a *Anchors, ca *cacheAnchors) []u7Entry {
 		}
 		// as before: a method that touches the cache entries itself must do both itself
 		hasLookup, hasUpdate := false, false
+		var via *ssa.Function // (a part of it extracted into a helper that is called from here only)
 		for _, acc := range cacheAccesses(p, f, ca.cacheField) {
 			hasLookup = hasLookup || acc.Kind == "lookup"
 			hasUpdate = hasUpdate || acc.Kind == "update"
+			if acc.Site != nil {
+				if c, ok := acc.Site.(ssa.CallInstruction); ok {
+					via = c.Common().StaticCallee()
+				}
+			}
 		}
 		if hasLookup || hasUpdate {
 			if hasLookup && hasUpdate {
-				out = append(out, u7Entry{f, nil})
+				out = append(out, u7Entry{f, via})
 			}
 			continue
 		}
